@@ -46,7 +46,7 @@ m = {
     'engines': [{'name': 'lean4+correspondence', 'path': 'lean/ , harness/', 'serves_properties': sorted(CLAIMED),
                  'kind_free_text': 'Lean 4 theorems about hand-written executable models + generated IR obligations; correspondence harness drives the models and the real bct on the same inputs'}],
     'checks': checks,
-    'notes': 'See DESIGN.md (Part I architecture and trusted base, Part II one section per property, Part III findings and seeded changes). known_findings.json + known_findings.d/ list recorded defects (open) and repaired ones (fixed). Every property is decided at level proof, but the theorems are about models: each claim text lists the clauses that are NOT theorems and rest on the correspondence or on independent predicates only (weakest: C20 toeplitz/fractal, C18 oracle-relative spectral clauses, C05/C13 generated abstraction with a trusted translator, C06 Pearson r, C17 copy flag, C02/C07 modularity_louvain_dir, C03/C12 log transform in floats).',
+    'notes': 'See DESIGN.md (Part I architecture and trusted base, Part II one section per property, Part III findings and seeded changes). known_findings.json + known_findings.d/ list recorded defects (open) and repaired ones (fixed). Every property is decided at level proof, but the theorems are about models: each claim text lists, under NOT PROVED / predicate only, the clauses that are not theorems and rest on the correspondence or on independent predicates (floating-point evaluation of log / sqrt / LAPACK results, modularity_louvain_dir beyond its first level (open defect D6), option variants and a few routines without a model - listed per property). The model is tied to the current source twice: by the correspondence on generated inputs and by generated obligations over IRs extracted from the source on every run (translate/*.py); source pins among the latter carry no semantics and are labelled as such (notes/TGEN.md).',
     'not_applicable': na,
 }
 json.dump(m, open(os.path.join(V, 'MANIFEST.json'), 'w'), indent=1)
